@@ -116,8 +116,20 @@ def b_batch(ctx):
         if layout == 'point-by-point' and ratios not in ((1.0, 1.0), (1.0, 0.6, 1.5)):
             continue
         prm = base_params()
+        # the flag 'max_load_independently_for_nodes' as a numpy bool (what a row of a parameter table or a comparison yields) instead of the Python object True
+        # (added after seed C10-f tested the flag with `is True`)
         ctx.case(len(set(ratios)) > 1, key=(tuple(seq), ratios, layout))
         multi = assess(prm, batch_series(seq, ratios, layout))
+        if layout == 'load-step-by-load-step' and ratios == (1.0, 1.2, 0.2):
+            import pandas as pd
+            prm_np = pd.DataFrame([dict(prm), dict(prm)]).iloc[0]       # a row of a parameter table: the flag arrives as numpy.bool_
+            other = assess(prm_np, batch_series(seq, ratios, layout))
+            for i, r in enumerate(ratios):
+                for fam, keys in (('P_RAM', KEYS_RAM), ('P_RAJ', KEYS_RAJ)):
+                    a, b = float(val(other, keys[0], i)), float(val(multi, keys[0], i))
+                    if bool(val(other, keys[1], i)) != bool(val(multi, keys[1], i)) or not (a == b or abs(a - b) <= 1e-9 * max(abs(a), abs(b))):
+                        ctx.fail(f'C10:batch-flag-type:{fam}', f'{fam}: point {i} of {seq} x {ratios}: lifetime {a} with max_load_independently_for_nodes given as {type(prm_np["max_load_independently_for_nodes"]).__name__}, {b} with the Python object True',
+                                 {'sequence': seq, 'ratios': list(ratios)})
         ltag = ''
         import pandas as pd
         if layout == 'point-by-point':
